@@ -272,7 +272,7 @@ def is_refusal(e):
     """A posting call that raises refuses the constraint (the property fixes neither the class nor the wording of the
     error).  The exceptions Python itself raises for a programming error are not taken for a refusal."""
     return isinstance(e, Exception) and not isinstance(e, (TypeError, LookupError, AttributeError, NameError,
-                                                            AssertionError, RecursionError, ArithmeticError))
+                                                            RecursionError, ArithmeticError))
 
 
 def mgr_state(sm):
